@@ -110,6 +110,21 @@ fn program_of(case: &Case) -> Vec<El> {
             els.push(El::Op(*op));
             els
         }
+        Case::Cond { cond, code, shape, below } if shape % 16 >= 13 => {
+            // a well-formed conditional, then a top-level OP_RETURN, then junk that does not balance (never reached)
+            let mut els: Vec<El> = below.iter().map(|b| push_el(&alpha(*b))).collect();
+            els.push(push_el(&alpha(*cond)));
+            els.push(El::If { code: *code, pass: vec![El::Op(0x52)], fail: if shape % 16 == 14 { Some(vec![El::Op(0x53)]) } else { None } });
+            els.push(El::Op(106));
+            if shape % 16 == 15 {
+                els.push(El::Op(104));
+            } else {
+                // an OP_IF that is never closed: only an element-built script can hold it (the parsers refuse it)
+                els.push(El::Op(0x51));
+                els.push(El::Op(99));
+            }
+            els
+        }
         Case::Cond { cond, code, shape, below } => {
             // one item parked on the alt stack across the conditional (must survive it)
             let mut els: Vec<El> = vec![El::Op(0x59), El::Op(107)];
@@ -375,8 +390,36 @@ fn elem_desc(e: Option<&El>) -> String {
 pub fn lockstep(program: &[El], via_bits: bool, o: &mut Outcome) -> Result<(), Failure> {
     // three routes to the Script object: its bytes; the nested elements; and, for every other element-built case, the
     // written-out elements (OP_IF / OP_ELSE / OP_ENDIF as plain opcodes, the way Script::push would assemble them)
-    let flat = via_bits && program.len() % 2 == 1 && gs::has_if(program) && !im::unbalanced(program);
-    let script = if flat {
+    // a conditional opcode on its own (behind a top-level OP_RETURN) can only be assembled element by element
+    let bare_open = program.iter().any(|e| matches!(e, El::Op(99 | 100)));
+    let flat = bare_open || (via_bits && program.len() % 2 == 1 && gs::has_if(program) && !im::unbalanced(program));
+    // mixed: the outer conditionals as blocks, the conditionals inside their branches written out as plain opcodes
+    let mixed = via_bits && !flat && !bare_open && program.len() % 3 == 0 && gs::depth(program) >= 2 && !im::unbalanced(program);
+    let script = if mixed {
+        o.label("written-out-conditionals-inside-blocks");
+        fn plain(t: tok::Tok) -> bsv::ScriptBit {
+            match t {
+                tok::Tok::Op(b) => bsv::ScriptBit::OpCode(opcode_from_byte(b).expect("table opcode")),
+                tok::Tok::Push { opcode, data } => match opcode {
+                    76..=78 => bsv::ScriptBit::PushData(opcode_from_byte(opcode).expect("push opcode"), data),
+                    _ => bsv::ScriptBit::Push(data),
+                },
+            }
+        }
+        fn outer(els: &[El]) -> Vec<bsv::ScriptBit> {
+            els.iter()
+                .flat_map(|e| match e {
+                    El::If { code, pass, fail } => vec![bsv::ScriptBit::If {
+                        code: opcode_from_byte(*code).expect("conditional opcode"),
+                        pass: gs::to_tokens(pass).into_iter().map(plain).collect(),
+                        fail: fail.as_ref().map(|f| gs::to_tokens(f).into_iter().map(plain).collect()),
+                    }],
+                    other => gs::to_tokens(std::slice::from_ref(other)).into_iter().map(plain).collect(),
+                })
+                .collect()
+        }
+        Script::from_script_bits(outer(program))
+    } else if flat {
         o.label("written-out-conditionals-through-push");
         let mut s = Script::default();
         for t in gs::to_tokens(program) {
@@ -636,7 +679,7 @@ impl Property for C14 {
             }
         }
         for code in [99u8, 100] {
-            for shape in 0..13u8 {
+            for shape in 0..16u8 {
                 for cond in 0..ALPHABET.len() as u8 {
                     for below in [vec![], vec![5u8]] {
                         idx += 1;
